@@ -521,7 +521,7 @@ fn replay(ctx: &Ctx, _engine: &str, case: &Value) -> CaseResult {
 pub static C13: PropDef = PropDef {
     id: "C13",
     level: "exploration",
-    rule: "proptest generates 2..8 stages (helper filter that wraps its whole input as Ti[...]Ti, writes 0..5 tagged lines to stderr, optional delay after closing stdout, exit code 0..255), a composition tree over the stage sequence realised with Exec|Exec, Pipeline|Exec, Pipeline|Pipeline or from_exec_iter, stream configuration applied to the result or to the operands of the root `|`, stdin in {inherit (the harness's fd 0 is a temp file), pipe, file, data}, stdout in {inherit, pipe, file}, stderr in {inherit, stderr_to(file), captured}, data of 0..300 KB, and a fitting terminator (join, capture, popen, stream_stdin, stream_stdout, communicate). Oracle: bytes at the configured output equal Tn[..T2[T1[input]T1]T2..]Tn (non-commutative, so skipped / repeated / swapped stages and wrong end points all show), the stderr sink holds exactly the multiset of all stages' lines, join/capture return the last stage's exit status, and when they return no child of the harness is left (zombie audit). Non-trivial = n >= 3, or a non-left-deep shape, or data larger than one pipe capacity. Operand-level configuration also covers the output set on the left pipeline before the last command is appended; a quarter of the cases with a stderr file open it while the host's own fd 1 is closed, so that the sink sits on descriptor 1.",
+    rule: "proptest generates 2..8 stages (helper filter that wraps its whole input as Ti[...]Ti, writes 0..5 tagged lines to stderr, optional delay after closing stdout, exit code 0..255), a composition tree over the stage sequence realised with Exec|Exec, Pipeline|Exec, Pipeline|Pipeline or from_exec_iter, stream configuration applied to the result or to the operands of the root `|`, stdin in {inherit (the harness's fd 0 is a temp file), pipe, file, data}, stdout in {inherit, pipe, file}, stderr in {inherit, stderr_to(file), captured}, data of 0..300 KB, and a fitting terminator (join, capture, popen, stream_stdin, stream_stdout, communicate). Oracle: bytes at the configured output equal Tn[..T2[T1[input]T1]T2..]Tn (non-commutative, so skipped / repeated / swapped stages and wrong end points all show), the stderr sink holds exactly the multiset of all stages' lines, join/capture return the last stage's exit status, and when they return no child of the harness is left (zombie audit). Non-trivial = n >= 3, or a non-left-deep shape, or data larger than one pipe capacity. Operand-level configuration also covers the output set on the left pipeline before the last command is appended; a quarter of the cases with a stderr file open it while the host's own fd 1 is closed, so that the sink sits on descriptor 1. A tenth of the stages write 20 000 stderr lines in one burst (several pipe capacities).",
     assumptions: &["helper stages terminate when their input ends", "stream configuration on individual Exec operands (other than through the Pipeline) is not generated: the crate refuses it"],
     engines: "real",
     workers: |_| 16,
